@@ -317,11 +317,20 @@ fn bank_switch(ctx: &Ctx) {
         e.verif_cpu().regs.set_pc(0x8900);
         frames(&mut e, 5);
     }
-    for (k, latch) in [0x00u8, 0x08, 0x00, 0x0F, 0x07, 0x08].iter().enumerate() {
+    // the displayed bank follows the reference latch (bit 3 of the last ACCEPTED write: nothing is
+    // accepted after a value with bit 5 set), never the implementation's own bookkeeping
+    let mut accepted: u8 = 0x07;
+    let mut locked = false;
+    for (k, latch) in [0x00u8, 0x08, 0x00, 0x0F, 0x07, 0x08, 0x00, 0x28, 0x00, 0x07, 0x20, 0x08].iter().enumerate() {
         out_latch(&mut e, *latch);
+        if !locked {
+            accepted = *latch;
+            locked = *latch & 0x20 != 0;
+        }
         frames(&mut e, 2);
-        let mem = displayed_memory(&e, true);
-        let want = if latch & 8 != 0 { &b } else { &a };
+        let shown = if accepted & 8 != 0 { 7 } else { 5 };
+        let mem = e.verif_ram_bank(shown)[..6912].to_vec();
+        let want = if accepted & 8 != 0 { &b } else { &a };
         ctx.add_eval(1);
         if mem[..] != want[..] {
             ctx.violation("C08:bank-switch:memory", "screen banks do not hold the two pictures", json!({"kind":"bankswitch"}));
@@ -329,8 +338,8 @@ fn bank_switch(ctx: &Ctx) {
         }
         if let Err((x, y, g, w)) = compare_frame(&e, &mem) {
             ctx.violation(
-                "C08:bank-switch:picture",
-                &format!("after paging write #{} ({:02x}) the picture is not the decode of bank {}: pixel ({},{}) {:02x} vs {:02x}", k, latch, if latch & 8 != 0 { 7 } else { 5 }, x, y, g, w),
+                &format!("C08:bank-switch:picture{}", if locked && *latch != accepted { ":after-lock" } else { "" }),
+                &format!("after paging write #{} ({:02x}; last accepted value {:02x}, paging {}) the picture is not the decode of bank {}: pixel ({},{}) {:02x} vs {:02x}", k, latch, accepted, if locked { "locked" } else { "unlocked" }, shown, x, y, g, w),
                 json!({"kind":"bankswitch"}),
             );
             return;
@@ -402,6 +411,62 @@ fn snapshot_then_flip(ctx: &Ctx) {
             ctx.outcome(0x5F00 + w as u64 * 2 + start_shadow as u64);
         }
     }
+}
+
+/// Emulator-internal memory writes are writers too: saving a 48K SNA pushes PC below SP and has to
+/// put the two bytes back; with SP inside the display file or the attributes the picture must still
+/// be the decode of the (unchanged) memory afterwards. SP over bitmap, attribute and boundary
+/// addresses x both snapshot formats x both machines.
+fn save_with_stack_in_screen(ctx: &Ctx) {
+    struct Rec;
+    impl rustzx_core::host::DataRecorder for Rec {
+        fn write(&mut self, buf: &[u8]) -> Result<usize, rustzx_core::error::IoError> {
+            Ok(buf.len())
+        }
+    }
+    let content = latin(41);
+    let mut jobs: Vec<(bool, u16, bool)> = Vec::new();
+    for is128 in [false, true] {
+        for sp in [0x4002u16, 0x4001, 0x4102, 0x57FF, 0x5800, 0x5801, 0x5902, 0x5B00, 0x5B01] {
+            for szx in [false, true] {
+                jobs.push((is128, sp, szx));
+            }
+        }
+    }
+    par_for(jobs.len(), 1, |j| {
+        let (is128, sp, szx) = jobs[j];
+        let mut e = match write_content(if is128 { Cfg::K128Normal } else { Cfg::K48 }, Writer::Ldir, &content) {
+            Ok(e) => e,
+            Err(_) => return,
+        };
+        frames(&mut e, 2);
+        e.verif_cpu().regs.set_sp(sp);
+        let r = if szx {
+            e.save_snapshot(rustzx_core::host::SnapshotRecorder::Szx(Rec))
+        } else {
+            e.save_snapshot(rustzx_core::host::SnapshotRecorder::Sna(Rec))
+        };
+        if r.is_err() {
+            return;
+        }
+        frames(&mut e, 3);
+        ctx.add_eval(1);
+        let mem = displayed_memory(&e, is128);
+        let case = json!({"kind":"save-stack-in-screen","m128":is128,"sp":sp,"szx":szx});
+        if mem[..] != content[..] {
+            // the save changed display memory: C13's clause, reported there; the picture clause
+            // below is still judged against what the memory holds now
+            ctx.note("save_changed_display_memory", json!(true));
+        }
+        if let Err((x, y, g, w)) = compare_frame(&e, &mem) {
+            ctx.violation(
+                &format!("C08:save-stack-in-screen:{}:{}", if is128 { "128k" } else { "48k" }, if szx { "szx" } else { "sna" }),
+                &format!("{} machine, save_snapshot({}) with SP={:04x} (the two bytes below SP lie in the display memory): three frames later pixel ({},{}) shows {:02x}, the standard decode of the display memory gives {:02x}", if is128 { "128K" } else { "48K" }, if szx { "SZX" } else { "SNA" }, sp, x, y, g, w),
+                case,
+            );
+        }
+        ctx.outcome(0x5A00 ^ (sp as u64) << 2 ^ (is128 as u64) << 1 ^ szx as u64);
+    });
 }
 
 /// Beam clause without ever placing the clock: the CPU idles (JR $) from the frame start until
@@ -645,6 +710,7 @@ pub fn run(tier: Tier, seed: u64, replay: Option<String>) -> i32 {
     }
     bank_switch(&ctx);
     snapshot_then_flip(&ctx);
+    save_with_stack_in_screen(&ctx);
     let lines: Vec<usize> = if quick { vec![0, 1, 7, 8, 63, 64, 65, 100, 127, 128, 190, 191] } else { (0..192).collect() };
     beam_clause(&ctx, false, &lines);
     beam_clause(&ctx, true, &lines);
@@ -655,7 +721,7 @@ pub fn run(tier: Tier, seed: u64, replay: Option<String>) -> i32 {
     ctx.note("contents", json!(contents.len()));
     ctx.note("not_judged", json!("phase of the first FLASH swap; stores completing within +-16 T of the ULA fetch of the byte"));
     ctx.finish(
-        "contents: Latin frames (bitmap[a]=(17a+j) mod 256, attr[a]=(29a+3j) mod 256: every screen address meets every byte value over j) and 26 address-line frames; writers: LDIR, explicit CPU store loop, execute_poke, tape fast load through the ROM trap, SNA, SZX stored, SZX zlib, SCR; configurations: 48K, 128K normal screen, 128K shadow screen written through C000, bank 5 written through C000; after two unchanged frames all 49152 pixels (colour and brightness) are compared with the standard decode of the displayed bank; FLASH run lengths over 48 frames; paging bit 3 switched between frames; beam clause on picture lines x columns {0,15,31} x store times -90..+70 T around the ULA fetch. distinct_nontrivial = (configuration, writer, content) cases",
+        "contents: Latin frames (bitmap[a]=(17a+j) mod 256, attr[a]=(29a+3j) mod 256: every screen address meets every byte value over j) and 26 address-line frames; writers: LDIR, explicit CPU store loop, execute_poke, tape fast load through the ROM trap, SNA, SZX stored, SZX zlib, SCR; configurations: 48K, 128K normal screen, 128K shadow screen written through C000, bank 5 written through C000; after two unchanged frames all 49152 pixels (colour and brightness) are compared with the standard decode of the displayed bank; FLASH run lengths over 48 frames; paging bit 3 switched between frames, also after the latch is locked (the displayed bank is computed from the reference latch, not from the implementation); snapshot with both screens loaded then flipped by the program; SNA/SZX save with SP inside the display memory; beam clause on picture lines x columns {0,15,31} x store times -90..+70 T around the ULA fetch. distinct_nontrivial = (configuration, writer, content) cases",
         false,
         &["quick tier rotates contents over the non-LDIR writers (each writer sees a quarter of the contents)", "beam clause places the frame clock through the hook"],
     )
